@@ -70,6 +70,21 @@ def build_input(job):
     return stab_from_codes(n, codes, fmt)
 
 
+_RECENT = []      # (circuit object, its gates when it was returned, description) of the last calls in this worker process
+
+
+def _check_recent(out):
+    """did a later call modify a circuit object that an earlier call handed out?"""
+    for qc, gates, desc in _RECENT:
+        try:
+            now = impl.gates_of(qc)
+        except Exception:
+            now = None
+        if now != gates:
+            out["stale"] = desc
+            break
+
+
 def api_call(job):
     """job: {"api": prep|readout|compress, "n", "conn", "codes", "fmt", ["program"], ["graph"], ["alt"]}
     Returns the trace fields recorded from the real call (no judgement)."""
@@ -79,7 +94,7 @@ def api_call(job):
     sc = lib.stabilizer_circuits
     api, n, conn = job["api"], job["n"], job["conn"]
     out = {"gates": [], "cls": -1, "graph": -1, "cost": -1, "depth": -1, "layer": [], "unchanged": 1, "exc": None,
-           "alt": [], "hasalt": 0}
+           "alt": [], "hasalt": 0, "stale": ""}
     try:
         if api == "compress":
             arg = impl.circuit_from_gates(n, job["program"])
@@ -100,6 +115,9 @@ def api_call(job):
             qc = sc.compress_preparation_circuit(arg, conn)
         out["gates"] = impl.gates_of(qc)
         out["nq"] = qc.num_qubits
+        _check_recent(out)
+        _RECENT.append((qc, out["gates"], f"{api} n={n} conn={conn} codes={job.get('codes')} fmt={job.get('fmt')}"))
+        del _RECENT[:-40]
     except Exception as e:
         out["exc"] = exc_name(e)
     for name, val in wrap.events():
@@ -119,6 +137,7 @@ def api_call(job):
             st2 = stab_from_codes(n, job["alt"], "matrices")
             out["alt"] = impl.gates_of(sc.get_readout_circuit(st2, conn))
             out["hasalt"] = 1
+            _check_recent(out)
         except Exception as e:
             out["alt"] = [["!" + exc_name(e), -1, -1]]
             out["hasalt"] = 1
@@ -390,6 +409,16 @@ def predicates(job):
         X, Z = sa.expand()
         rec["expX"], rec["expZ"] = _mat(X), _mat(Z)
         rec["ent"] = [1 if sa.is_qubit_entangled(q) else 0 for q in range(n)]
+        # the caller scribbles over the arrays it was given and asks again (same object): the answer must not change
+        try:
+            X[...] = 1
+            Z[...] = 0
+        except Exception:
+            pass
+        X2, Z2 = sa.expand()
+        rec["expX2"], rec["expZ2"] = _mat(X2), _mat(Z2)
+        rec["ent2"] = [1 if sa.is_qubit_entangled(q) else 0 for q in range(n)]
+        rec["equiv2"] = 1 if sb.is_equivalent_mod_phase(sa) else 0
     except Exception as e:
         rec["exc"] = exc_name(e) + ": " + str(e)[:120]
     return rec
@@ -639,3 +668,20 @@ def config_gate(job):
     except Exception as e:
         rec["exc"] = exc_name(e)
     return rec
+
+
+def sign_sweep(job):
+    """All (or several) sign vectors of ONE generator list requested one after the other in one process; the caller keeps every returned
+    circuit.  -> list of api_call results (one per sign vector); a circuit modified by a later call is reported in the field `stale`."""
+    import itertools
+    n, codes, conn, api, vectors = job["n"], job["codes"], job["conn"], job["api"], job["vectors"]
+    outs = []
+    for v in vectors:
+        cs = [(c % impl.W2) + impl.W2 * ((v >> i) & 1) for i, c in enumerate(codes)]
+        j = {"api": api, "n": n, "conn": conn, "codes": cs, "fmt": "matrices", "alt": None}
+        outs.append((j, api_call(j)))
+    final = {"stale": ""}
+    _check_recent(final)
+    if final["stale"] and outs:
+        outs[-1][1]["stale"] = outs[-1][1]["stale"] or final["stale"]
+    return outs
